@@ -45,6 +45,10 @@ rs_is_repeatable(uint32_t num) {
   case RS_O_URI_QUERY:
   case RS_O_LOCATION_QUERY:
     return 1;
+  case 292: /* Request-Tag, RFC 9175 3.2: repeatable */
+    return 1;
+  case 252: /* Echo, RFC 9175 2.2.1: not repeatable */
+    return 0;
   default:
     /* an option the server does not know cannot be "illegally" repeated: its definition is unknown */
     return num > RS_O_SIZE1 && num != RS_O_NO_RESPONSE;
